@@ -327,7 +327,7 @@ def _strings(job):
 def run(ctx):
     d1 = depth1()
     d2n = len(depth2(d1))
-    stride = 40 if ctx.quick else 1
+    stride = 12 if ctx.quick else 1
     work = []
     for ti in range(len(d1)):
         if ctx.quick:
@@ -369,7 +369,7 @@ def run(ctx):
         structure_strings=n,
         structure_strings_expected=counts,
         exhaustive=True,
-        bounds="T,S: all trees of depth<=1 over tuple/list/dict/None/empty (arity<=2); X: trees of depth<=2 (thorough: all 27k per T; quick: every 40th plus all trees derived from T by composition and one-node mutation); "
+        bounds="T,S: all trees of depth<=1 over tuple/list/dict/None/empty (arity<=2); X: trees of depth<=2 (thorough: all 27k per T; quick: every 12th plus all trees derived from T by composition and one-node mutation); "
         "composites over a strided square of (S,T) pairs; structure strings: <=3 pieces from 9 with 4 separators",
     )
     return Result(level="model_checking", coverage=cov, violations=viols, assumptions=["reference structure algebra vf/refs/pytrees.py (dict keys sorted, tuple != list, None is an empty node)"])
